@@ -357,6 +357,8 @@ class Check:
                    "(configuration, input history / geometry, seed) has not been seen before in this run and "
                    "the real code was actually executed on it")
     cov["binding_selftests"] = self.selftests
+    if WORKER_RETRIES:
+      cov["worker_processes_restarted_after_crash"] = list(WORKER_RETRIES)
     cov["known_findings_hit"] = sorted(self.known_hits)
     ev = {
         "property_id": self.pid,
@@ -407,6 +409,9 @@ def worker_env(x64=False, devices=None):
   return e
 
 
+WORKER_RETRIES = []     # chunks that were given to a fresh worker process after a crash (reported in evidence)
+
+
 def run_workers(worker_module, jobs, *, x64=False, devices=None, nproc=None, timeout=3600,
                 chunk=None, work=None):
   """Run `python -m <worker_module> <in.json> <out.json>` over chunks of `jobs`.
@@ -426,6 +431,7 @@ def run_workers(worker_module, jobs, *, x64=False, devices=None, nproc=None, tim
   results = [None] * len(chunks)
   pending = list(enumerate(chunks))
   running = []
+  attempts = {}
   tag = f"{worker_module.split('.')[-1]}_{_uniq()}"
   t_end = time.time() + timeout
   while pending or running:
@@ -449,13 +455,30 @@ def run_workers(worker_module, jobs, *, x64=False, devices=None, nproc=None, tim
         still.append((i, p, fi, fo, log))
         continue
       log.close()
-      if rc != 0 or not fo.exists():
+      done = None
+      if fo.exists():
+        try:
+          done = json.loads(fo.read_text())
+        except ValueError:
+          done = None
+        if done is not None and len(done) != len(chunks[i]):
+          done = None
+      if done is None:
+        # The worker process died (observed: an intermittent native crash inside jaxlib's CPU client with
+        # several forced host devices, about once in twenty C13 runs, not reproducible for the same input).
+        # A fresh process gets the same chunk, twice at most; a deterministic crash still ends as a
+        # machinery error (exit 2), never as a verdict.
+        attempts[i] = attempts.get(i, 0) + 1
+        if attempts[i] <= 2:
+          WORKER_RETRIES.append(f"{worker_module} chunk {i} rc={rc}")
+          pending.insert(0, (i, chunks[i]))
+          continue
         tail = (work / f"{tag}_{i}.log").read_text()[-3000:]
         for (_, q, *_r) in running:
           if q.poll() is None:
             q.kill()
-        raise MachineryError(f"worker {worker_module} chunk {i} rc={rc}\n{tail}")
-      results[i] = json.loads(fo.read_text())
+        raise MachineryError(f"worker {worker_module} chunk {i} rc={rc} (3 attempts)\n{tail}")
+      results[i] = done
       fi.unlink(missing_ok=True)
       fo.unlink(missing_ok=True)
     running = still
